@@ -151,6 +151,57 @@ actix-web = "3.3.2"
 [workspace]
 """
 
+BENIGN = """# Brief: one substantial change that KEEPS a stated property
+
+I am testing a verification tool for false alarms. I need ONE realistic, substantial change to the Rust repository checked out in
+`{wt}` (a scratch git worktree of dmntk.rs, a DMN decision-model toolkit) that touches the code the property below is anchored in,
+LOOKS risky to a reviewer, and yet keeps the property true for EVERY input: the observable behaviour the property talks about must
+be exactly what it was. Work ONLY inside `{wt}` (sources) and `{work}` (build output, scratch crates). Do not read or write `/repo`
+or `/verif`. No network: always `CARGO_NET_OFFLINE=true cargo ... --offline`, use `-j 4`, ALWAYS pass `--target-dir {work}/target`.
+`export RUST_BACKTRACE=0`.
+
+## The property
+
+id: {id}
+title: {title}
+
+statement: {statement}
+
+quantifier: {quantifier}
+
+code it is anchored in: {anchors}
+
+## What kind of change
+
+Something a maintainer really does: rewrite a function in another style (loop -> iterator chain or the reverse, recursion -> explicit
+stack, nested ifs -> match), change an internal representation (a map for a sorted vector, a String for a Vec<char>, an enum for
+flags), split or merge functions, reorder independent statements or match arms, rename private items, hoist or inline helpers, add a
+CORRECT cache or fast path (keyed by everything the result depends on), change the wording of error / diagnostic / null-reason
+messages, change Debug output of internal types, change the order in which independent checks are made, tighten visibility, replace
+an unwrap by proper error propagation where the error cannot happen. 40-200 changed lines are fine. Combine two or three of these.
+What you must NOT change: any value, acceptance / rejection, printed form of a FEEL value, JSON body or state that the property
+speaks about. Error and diagnostic TEXTS are not part of the property (only whether there is an error) - changing them is welcome.
+
+## Facts about this repository you need
+
+* Cargo workspace in which every `dmntk-*` crate depends on the crates.io (vendored) copy of its siblings: a change in crate X is
+  seen by X's own tests only. Run `cargo test --offline -j 4 -p <crate> --no-fail-fast --target-dir {work}/target` BEFORE and AFTER
+  and compare the `test result:` lines - they must be identical (a few crates have failures at HEAD already).
+* A scratch crate with `[patch.crates-io]` pointing every dmntk crate at this worktree is in `{work}/demo_crate` (for an equivalence
+  test that goes through higher crates): `cd {work}/demo_crate && CARGO_NET_OFFLINE=true cargo run --offline -j 4 --target-dir {work}/target`.
+
+## What to deliver (under `{wt}/seed/`, not part of the change)
+
+1. The worktree left WITH your change applied, nothing else changed.
+2. `seed/patch.diff` = `git -C {wt} diff -- . ':!seed' ':!BRIEF.md'`.
+3. `seed/demo/` = an equivalence demonstration: a small program or test that runs at least 200 varied inputs relevant to the property
+   through the public API and prints a digest of all results; run it WITHOUT the change (`git stash` or `git apply -R`) and WITH it and
+   show the digests are identical. `seed/demo/RUN.md` with the commands and both outputs.
+4. `seed/NOTES.md`: what was changed, why it looks risky, and your argument that the property is untouched for every input.
+5. Final message: 8 lines at most.
+Budget: about 30-40 minutes.
+"""
+
 for pid in ids:
     p = props[pid]
     wt = "/tmp/s%s_%s" % (rnd, pid)
@@ -172,7 +223,7 @@ for pid in ids:
     anchors = p["anchors"]
     if not isinstance(anchors, str):
         anchors = json.dumps(anchors, ensure_ascii=False)
-    txt = BRIEF.format(wt=wt, work=work, id=pid, title=p["title"], statement=p["statement"], quantifier=(p["quantifier"].get("text") if isinstance(p["quantifier"], dict) else p["quantifier"]),
+    txt = (BENIGN if rnd.startswith("b") else BRIEF).format(wt=wt, work=work, id=pid, title=p["title"], statement=p["statement"], quantifier=(p["quantifier"].get("text") if isinstance(p["quantifier"], dict) else p["quantifier"]),
                        why=p["why_tests_cant"], anchors=anchors, rnd=rnd, prefs=PREFS.get(rnd, PREFS["8"]),
                        used=", ".join(sorted(used[pid])) or "(none)",
                        tried="\n".join("  - " + t for t in tried.get(pid, [])) or "  (none)")
